@@ -194,7 +194,7 @@ func (f recFinStore) SaveFinalization(ctx context.Context, h uint64, r uint32, b
 		f.s.mu.Lock()
 		f.s.fins[h] = struct{}{}
 		f.s.mu.Unlock()
-		f.s.rec.add(M{"t": "write", "store": "fin", "h": h, "r": r, "_vs": f.s.hub.vsLabel(vs)})
+		f.s.rec.add(M{"t": "write", "store": "fin", "h": h, "r": r, "vs": f.s.hub.vsLabel(vs)})
 	}
 	return err
 }
@@ -231,7 +231,7 @@ func (s recSigner) Precommit(ctx context.Context, vt tmconsensus.VoteTarget) ([]
 }
 func (s recSigner) SignProposedHeader(ctx context.Context, ph *tmconsensus.ProposedHeader) error {
 	s.rec.add(M{"t": "sign", "kind": "proposal", "h": ph.Header.Height, "r": ph.Round, "target": string(ph.Header.DataID),
-		"_vs": s.hub.vsLabel(ph.Header.ValidatorSet), "_nvs": s.hub.vsLabel(ph.Header.NextValidatorSet)})
+		"vs": s.hub.vsLabel(ph.Header.ValidatorSet), "nvs": s.hub.vsLabel(ph.Header.NextValidatorSet)})
 	return s.inner.SignProposedHeader(ctx, ph)
 }
 func (s recSigner) PubKey() gcrypto.PubKey { return s.inner.PubKey() }
@@ -1266,7 +1266,7 @@ func (rn *smRunner) run(b smBehaviour) {
 			case "write":
 				// C07: the finalization store records the validator set the driver returned for that height
 				if o["store"] == "fin" {
-					if got, want := fmt.Sprint(o["_vs"]), smFinSet(toU64(o["h"])); got != want {
+					if got, want := fmt.Sprint(o["vs"]), smFinSet(toU64(o["h"])); got != want {
 						rn.viol(b.ID, i, "C07", "FinalizationStoresDriverSet", s.Op, got+"!="+want,
 							fmt.Sprintf("the finalization of height %v was stored with validator set %s; the driver returned %s", o["h"], got, want))
 					}
@@ -1275,11 +1275,11 @@ func (rn *smRunner) run(b smBehaviour) {
 				// C07: a header the state machine proposes carries the sets the chain prescribes for its height and the next
 				if o["kind"] == "proposal" {
 					hh := toU64(o["h"])
-					if got, want := fmt.Sprint(o["_vs"]), smVSAt(hh); got != want {
+					if got, want := fmt.Sprint(o["vs"]), smVSAt(hh); got != want {
 						rn.viol(b.ID, i, "C07", "ProposesWithChainSets", s.Op, "vs:"+got+"!="+want,
 							fmt.Sprintf("the header proposed at height %d carries validator set %s; the chain prescribes %s (what the driver returned when finalizing height %d)", hh, got, want, hh-2))
 					}
-					if got, want := fmt.Sprint(o["_nvs"]), smVSAt(hh+1); got != want {
+					if got, want := fmt.Sprint(o["nvs"]), smVSAt(hh+1); got != want {
 						rn.viol(b.ID, i, "C07", "ProposesWithChainSets", s.Op, "nvs:"+got+"!="+want,
 							fmt.Sprintf("the header proposed at height %d carries next validator set %s; the chain prescribes %s", hh, got, want))
 					}
